@@ -178,8 +178,9 @@ CHECKS = {
              "a stop-when-done timeline stops; silent events emit nothing; per-voice pairing; release rule and first-due-tick arithmetic. "
              "The model is diffed against the real Timeline on generated histories every run.",
         design="DESIGN.md §3 C02",
-        note=SCHED_NOTE + " The clause 'released on the first tick at or after onset + duration x gate' is proved as track-local "
-             "lemmas (queue time, release rule, never in the onset tick, first-due-tick = ceil) and checked end-to-end by the correspondence.",
+        note=SCHED_NOTE + " The clause 'released on the first tick at or after onset + duration x gate, never in the onset tick' is "
+             "proved as an invariant (Timely) of the per-track tick function, which by C07.non_interference is how a track evolves "
+             "when tracks do not call the timeline API; with callbacks it is checked by the correspondence.",
         technique="Lean 4 invariant proof (induction over operation histories) + differential correspondence with the real Timeline"),
 }
 
